@@ -179,6 +179,15 @@ CORE = [
     "S>ONc|N>a|O>b|O>",              # optional prefix
     "S>NcO|N>a|O>b|O>",              # optional suffix
     "S>NOc|S>NPb|N>a|O>b|O>|P>c|P>",
+    # sibling productions sharing a prefix "N O" (O nullable) with different continuations: one item
+    # set holds several items with the dot before N, the same look-ahead and the same next-next symbol
+    "S>NOa|S>NOc|N>a|O>b|O>",
+    "S>NOa|S>NOb|S>NOc|N>a|O>",      # three siblings, O derives only the empty string
+    "S>NOPa|S>NOPc|N>b|O>|P>b|P>",   # nullable chain behind the shared prefix
+    "S>bNOa|S>bNOc|N>a|O>b|O>",      # right-hand sides of length 4
+    "S>NOa|S>NOPc|N>a|O>b|O>|P>",
+    "S>aL|L>NOa|L>NOc|N>b|O>b|O>",   # the siblings below the start symbol
+    "S>NOa|S>NOcS|N>a|O>b|O>",
 ]
 
 
@@ -188,11 +197,15 @@ def directed():
     o_vars = [["O>b", "O>"], ["O>bc", "O>"], ["O>b", "O>c", "O>"], ["O>Pb", "O>", "P>c", "P>"], ["O>Ob", "O>"]]
     p_vars = [["P>c", "P>"], ["P>a", "P>"], ["P>cb", "P>"]]
     templates = ["S>NOt", "S>NOPt", "S>tNOu", "S>SOt|S>N", "S>SON|S>N", "S>NO", "S>ONt", "S>NtO",
-                 "S>LO|L>LtN|L>N", "S>NOt|S>NPu", "S>tON", "S>NOOt", "S>SOt|S>a", "S>tSOu|S>N"]
+                 "S>LO|L>LtN|L>N", "S>NOt|S>NPu", "S>tON", "S>NOOt", "S>SOt|S>a", "S>tSOu|S>N",
+                 # siblings sharing the prefix "N O ..." with different continuations
+                 "S>NOt|S>NOu", "S>NOt|S>NOu|S>NOv", "S>NOPt|S>NOPu", "S>vNOt|S>vNOu", "S>NOt|S>NOPu",
+                 "S>vL|L>NOt|L>NOu", "S>NOtS|S>NOu", "S>NOOt|S>NOOu"]
     for tpl in templates:
         for t in "abc":
             for u in ("abc" if "u" in tpl else "a"):
-                top = tpl.replace("t", t).replace("u", u).split("|")
+                v = ([x for x in "abc" if x not in (t, u)] or ["a"])[0]
+                top = tpl.replace("t", t).replace("u", u).replace("v", v).split("|")
                 for nv in n_vars:
                     for ov in o_vars:
                         defines_p = any(x.startswith("P>") for x in ov)
@@ -506,7 +519,7 @@ class Engine:
                  "random grammars with 2-4 productions, |rhs| <= 3, up to the a<->b symmetry + a directed family "
                  "built around optional parts between a non-terminal and a terminal (X -> N O t, X -> N O P t, "
                  "X -> t N O u, lists with optional separators/trailers, nested optionals; 2-4 non-terminals, 3 "
-                 "terminals; quick: 12 core + seeded 90 of ~1450, thorough: all) + seeded random grammars with 3 "
+                 "terminals; sibling productions sharing a prefix 'N O' with different continuations; quick: 19 core + seeded 90 of ~2900, thorough: all) + seeded random grammars with 3 "
                  "non-terminals, 3-5 productions, 2-3 terminals; each grammar is given to calculate_first_sets, "
                  "LrParserBuilder, EarleyParser; the parser runs on all words over the grammar's terminals of length "
                  "<= 5 (two terminals) / <= 4 (three; <= 5 for a third of the directed family in thorough); TLC judges "
